@@ -18,6 +18,9 @@ func init() { register("C05", "exploration", runC05) }
 
 func runC05(ctx *Ctx) {
 	r := ctx.R
+	if ctx.Isolate() {
+		return
+	}
 	if err := refcrypto.SelfTest(); err != nil {
 		r.HarnessError(err.Error())
 		return
@@ -115,14 +118,19 @@ func runC05(ctx *Ctx) {
 	}
 	st := explore.Explore(explore.Config{Bound: bound, Workers: Workers(), Deadline: deadline}, body)
 	r.Set("bound_completed", st.BoundCompleted)
-	r.Set("executions_per_level", st.PerLevel)
+	if st.Level1 != "" {
+		r.Consistent("level-1 vectors", st.Level1)
+	}
+	for d, n := range st.PerLevel {
+		r.Add(fmt.Sprintf("executions_with_%d_deviations", d), n)
+	}
 	if !st.Complete {
 		r.NotExhaustive(fmt.Sprintf("budget ended during deviation level %d after %d executions of it", st.BoundCompleted+1, st.BeyondBound))
 	}
 	// full product of the small dimensions with the 128-bit inputs at the default
 	fixBig = true
 	st2 := explore.Explore(explore.Config{Bound: -1, Workers: Workers(), Deadline: deadline}, body)
-	r.Set("small_dimension_product_executions", st2.Executions)
+	r.Add("small_dimension_product_executions", st2.Executions)
 	if !st2.Complete {
 		r.NotExhaustive("budget ended during the full product of the small dimensions")
 	}
@@ -163,6 +171,9 @@ func runC05(ctx *Ctx) {
 	v = base
 	v.opOnly, v.op = true, ops[2]
 	vs = append(vs, v)
+	if !ctx.Lead() {
+		return
+	}
 	lh := r.Local()
 	nseq := 0
 	var rec func(seq []int)
